@@ -10,11 +10,12 @@ CLAIMED = {
    level="exploration",
    technique="deterministic simulation: seeded repository histories (real git, skewed actor clocks, benign git-proxy perturbations) judged against a reference model",
    text=("Seeded history simulation: developer actors with skewed clocks build a real repository with the real git (commit / branch / checkout / "
-         "detach / merge incl. octopus and criss-cross / ff / tag light+annotated+nested / delete / reset / amend / dirty kinds / pack-refs / gc); the real "
+         "detach / merge incl. octopus and criss-cross / ff / orphan roots / tag light+annotated+nested, on tree objects, sibling tags sharing one X.Y.Z / delete / "
+         "reset / amend / 17 work-tree states incl. renames, type changes, odd file names, files named like refs / pack-refs / gc); the real "
          "zerv binary, reaching git only through a tracing and perturbing proxy and reading a simulated wall clock, is observed with "
          "--output-format zerv and every reported fact (base tag nearest + maximal, release numbers, distance, dirty, branch, hashes, times, "
          "no-valid-tag failure) is compared with a small executable reference model that knows nothing about git commands; metamorphic "
-         "re-observations (shuffled/padded git output, packed refs, other cwd spelling). Sampling, not proof: a clean batch is evidence."),
+         "re-observations (shuffled/padded git output, packed refs, other cwd spelling, a linked work tree). Sampling, not proof: a clean batch is evidence."),
    note=("Trusts git 2.39.5 as the other party, the reference model (cross-validated against the repository through plumbing zerv does not use; "
          "mismatch = harness error), the independent SemVer/PEP 440 comparators (unit-tested against the specifications' example chains) and the "
          "tag-name table whose validity classes are fixed by construction."),
@@ -23,12 +24,16 @@ CLAIMED = {
    level="fault_enumeration",
    technique="deterministic simulation with fault injection: every git invocation x every fault kind enumerated through a git proxy, storage / stdin / cwd / PATH faults, seeded adversarial argv",
    text=("Per seeded scenario (world state x command) the fault-free run is traced through the git proxy and then every git invocation index x every one "
-         "of 24 fault kinds (error exits with real git messages, empty / non-numeric / negative / huge / non-UTF-8 / NUL / 1 MB outputs, torn output, junk "
-         "lines, SIGKILL, SIGSEGV) is executed - enumerated, not sampled - plus whole-run faults (git missing / not executable / a directory / ENOEXEC / "
-         "every call failing / step budget), 2-3 fault sequences, storage corruption (9 targets x 5 manners, errors produced by the real git), stdin "
-         "faults (closed fd, directory fd, invalid UTF-8, NUL, torn, 10 MB), cwd faults (deleted cwd, -C to file / missing / empty / .git, non-UTF-8 argv), "
-         "interleaved repository mutations at every invocation index (thorough), and an adversarial argv workload generated from the flag set the binary "
-         "reports. Oracle per child: exit 0 with the result only on stdout (one line for semver/pep440; byte-identical stdout under -v and RUST_LOG=trace), "
+         "of 32 fault kinds (error exits with 13 real git messages, empty / non-numeric / negative / huge / non-UTF-8 / NUL / 1 MB outputs, torn output, junk "
+         "lines, SIGKILL, SIGSEGV) is executed - enumerated, not sampled - plus persistent faults (every error kind on every call of one sub-command and on "
+         "all calls; a 400-call step budget turns a retry loop into a deterministic liveness violation), whole-run faults (git missing / not executable / a "
+         "directory / ENOEXEC), 2-3 fault sequences, storage corruption (9 targets x 5 manners, errors produced by the real git), stdin faults (closed fd, "
+         "directory fd, invalid UTF-8, NUL, torn, 10 MB), stdout and stderr faults (reader gone: EPIPE; /dev/full: ENOSPC), cwd faults (deleted cwd, -C to "
+         "file / missing / empty / .git, non-UTF-8 argv), interleaved repository mutations at every invocation index (thorough), and an argv workload from "
+         "the flag set the binary reports: a systematic part (every value of every adversarial class once on an otherwise valid command: long and "
+         "multi-byte strings, numeric edges, bad templates, deeply nested templates / RON / JSON, function x value x length grids) and a seeded random "
+         "part. Oracle per child: exit 0 with the result only on stdout (one line for semver/pep440, one RON document for zerv; byte-identical stdout and "
+         "status under -v, RUST_LOG=trace, RUST_LOG=off, ZERV_FORCE_RUST_LOG_OFF, a foreign or invalid filter), "
          "or exit != 0 with empty stdout and a diagnostic; exit 101, 'panicked at', death by signal, watchdog or step-budget overrun are violations."),
    note=("Scenarios, argv and multi-fault sequences are sampled; only git-invocation x fault-kind is exhaustive per scenario. Trusts the proxy trace for "
          "'fault fired', git 2.39.5 for storage errors, and an 8 GiB RLIMIT_AS to turn runaway allocations into aborts."),
@@ -38,8 +43,10 @@ CLAIMED = {
    technique="deterministic simulation: environment-perturbation replay under a simulated wall clock (TZ, locale, cwd spelling, unrelated variables, repetition) against a reference execution and an independent UTC calendar",
    text=("Per seeded scenario (repository history built with real git, or a stdin document, or overrides; one argv; one simulated instant placed near a UTC "
          "midnight / year end / 29 February) a reference execution is compared byte for byte (stdout and exit status) with 10-14 perturbed executions in "
-         "fresh processes: TZ (named zones incl. +14:00 / -11:00 / +5:30, POSIX forms, garbage), LANG / LC_ALL / LC_TIME, seven cwd / -C spellings, 5-30 "
-         "unrelated but tempting variables (SOURCE_DATE_EPOCH, CI, GITHUB_REF_NAME, ZERV_*...), HOME unset, plain repetition. The clock seam turns the "
+         "fresh processes: TZ (named zones incl. +14:00 / -11:00 / +5:30, POSIX forms, garbage), LANG / LC_ALL / LC_TIME, twelve cwd / -C spellings (root, "
+         "sub-directory, relative, trailing slash, symlink, `.`, `x/..`, a symlinked cwd with a consistent PWD and a relative -C containing `..`, -C pointing "
+         "at a sub-directory), 5-30 unrelated but tempting variables (SOURCE_DATE_EPOCH, CI, GITHUB_REF_NAME, ZERV_*...), HOME unset, and at least ten plain "
+         "repetitions (a per-process random choice is reported once, as `repeat`). The clock seam turns the "
          "property's exception into a checked statement: at a second instant the output may differ only for dirty / ahead-in-tag-mode states or templates "
          "naming current_timestamp. Date-derived components (format_timestamp, calver preset, ts() components) are compared with an independent UTC "
          "calendar under every TZ of the scenario; the hash-derived branch id is covered by byte equality across processes."),
@@ -54,8 +61,9 @@ CLAIMED = {
          "re-emission must be byte-identical and semver / pep440 / template renderings through the pipe must equal the direct ones. Then 12-26 damaged "
          "deliveries per document (truncation at any byte, bit flip, dropped / duplicated span, 14 structural schema rewrites) must be refused cleanly or, "
          "if accepted, yield a placement-valid object that is a fixed point of a further hop; a rewrite that violates the placement rules (judged by an "
-         "independent validator written from the property text) must be refused. Every emitted object is read back by an independent RON reader and "
-         "passes the validator."),
+         "independent validator written from the property text) must be refused; text before / after an intact document (junk, a second document, BOM, "
+         "NUL - comments must still be accepted) and pairs of rewrites (a placement edit plus an edit of the precedence list) are covered too. Every emitted "
+         "object is read back by an independent RON reader and passes the validator."),
    note=("The all-field-values reading is covered only as far as the producers reach; structural rewrites are document mutation (input generation) and "
          "labelled so in the evidence. Known finding KF-C12-dirty-restamp (dirty objects are re-stamped when the clock advanced) is listed in "
          "known_findings.json and identified narrowly."),
@@ -66,7 +74,8 @@ CLAIMED = {
    text=("Seeded workflow actors (branch, commit with skewed clocks, dirty / clean, merge, fast-forward, detach, reset, release = tag HEAD with the public part "
          "of flow's own output, next final release) drive a real repository starting from a random final tag; one flag set per run (11 standard presets, post "
          "mode, hash length 1-10, default / custom branch rules, label / number overrides). At every observation point the real `zerv flow` is run for semver and "
-         "pep440 at the simulated instant (dev.<SIM_NOW> across [0, 2^32)) and judged: exact X.Y.Z at a clean final tag; X.Y.Z < V < X.Y.(Z+1) for every other "
+         "pep440 at the simulated instant (dev.<SIM_NOW> across [0, 2^32)), followed by an override-only family (`--source none`: dirty unset / --dirty / "
+         "--no-dirty / --clean, distance ladders, release chains built from flow's own output) under the same flags and clock, and judged: exact X.Y.Z at a clean final tag; X.Y.Z < V < X.Y.(Z+1) for every other "
          "state; strictly greater with more commits on the same branch / tag / first-parent chain in commit post-mode; a pre-release tag of flow's shapes printed "
          "unchanged. Which clause applies is decided from the reference model (C02's oracle), the order by comparators written from SemVer 2.0.0 §11 and PEP 440."),
    note=("Sampling. Clauses are evaluated only where the model says the base tag is unique and (clause 3) the post mode is known to be `commit`. 21 known findings "
